@@ -160,7 +160,7 @@ def recursive_strategy(draw):
 def tfmodisco_strategy(draw):
     case = draw(track_strategy(tf=True))
     case["dtype"] = "float32"           # the TF-MoDISco caller only accepts float32 tracks (torch.quantile dtype check)
-    case.update({"window": draw(st.sampled_from([5, 9, 15, 21])), "flank": draw(st.sampled_from([0, 3, 10])),
+    case.update({"window": draw(st.sampled_from([4, 5, 6, 9, 10, 15, 20, 21])), "flank": draw(st.sampled_from([0, 1, 2, 3, 5, 10])),
                  "fdr": draw(st.sampled_from([0.05, 0.2, 0.5]))})
     return case
 
